@@ -388,6 +388,9 @@ def check(ctx: Ctx, col: Collector, tier: str) -> None:
     col.extra["roles"] = {r: {l: sorted(map(str, p)) for l, p in s.items()} for r, s in sites.items()}
     from .shared import share
     share(ctx, col, "C17", {"C17.FILTER"}, "the same declarations are shown under both settings: the inherited-member filter compares Python names")
+    from .shared import share
+    share(ctx, col, "C17", {"C17.OWN-FIRST"}, "what a class records as its own member names does not depend on the naming convention (the emitted spelling is never compared with Python names)",
+          key_filter=lambda o: "own-names-recorded" in o.key)
     col.assume("the string algorithm of the conversion (UpperCamel/lowerCamel for all identifiers) is a function over arbitrary strings and is not decided")
 
 
